@@ -74,6 +74,12 @@ def idc(i):
     return i if isinstance(i, str) else ("~", i)
 
 
+def eidc(i):
+    """edge ids: implicit (int) ids carry no meaning beyond identity inside one graph -- the property does
+    not ask the conjunction to preserve them (it cannot pass them to Edge()), so they compare as anonymous"""
+    return i if isinstance(i, str) else "~"
+
+
 def lab_c(l: EdgeLabel, ren=None):
     if l.is_nonterminal and ren is not None:
         return ren.get(l.name, ("?", l.name))
@@ -82,8 +88,8 @@ def lab_c(l: EdgeLabel, ren=None):
 
 def rule_content(rule: HRGRule, ren=None):
     g = rule.rhs
-    nts = frozenset((idc(e.id), lab_c(e.label, ren), tuple(idc(n.id) for n in e.nodes)) for e in g.edges() if e.label.is_nonterminal)
-    ts = Counter((idc(e.id), label_ref(e.label), tuple(idc(n.id) for n in e.nodes)) for e in g.edges() if e.label.is_terminal)
+    nts = frozenset(Counter((eidc(e.id), lab_c(e.label, ren), tuple(idc(n.id) for n in e.nodes)) for e in g.edges() if e.label.is_nonterminal).items())
+    ts = Counter((label_ref(e.label), tuple(idc(n.id) for n in e.nodes)) for e in g.edges() if e.label.is_terminal)
     return (lab_c(rule.lhs, ren), frozenset((idc(n.id), n.label.name) for n in g.nodes()),
             tuple(idc(n.id) for n in g.ext), nts, frozenset(ts.items()))
 
@@ -106,9 +112,9 @@ def pair(a: str, b: str):
 
 def expected_rule_content(r1: HRGRule, r2: HRGRule):
     by_id = {e.id: e for e in r2.rhs.edges() if e.label.is_nonterminal}
-    nts = frozenset((idc(e.id), pair(e.label.name, by_id[e.id].label.name), tuple(idc(n.id) for n in e.nodes))
-                    for e in r1.rhs.edges() if e.label.is_nonterminal)
-    ts = Counter((idc(e.id), label_ref(e.label), tuple(idc(n.id) for n in e.nodes))
+    nts = frozenset(Counter((eidc(e.id), pair(e.label.name, by_id[e.id].label.name), tuple(idc(n.id) for n in e.nodes))
+                            for e in r1.rhs.edges() if e.label.is_nonterminal).items())
+    ts = Counter((label_ref(e.label), tuple(idc(n.id) for n in e.nodes))
                  for r in (r1, r2) for e in r.rhs.edges() if e.label.is_terminal)
     return (pair(r1.lhs.name, r2.lhs.name), frozenset((idc(n.id), n.label.name) for n in r1.rhs.nodes()),
             tuple(idc(n.id) for n in r1.rhs.ext), nts, frozenset(ts.items()))
@@ -123,13 +129,19 @@ def derivations(h: HRG, lhs: EdgeLabel, height: int) -> List[tuple]:
         nts = sorted((e for e in r.rhs.edges() if e.label.is_nonterminal), key=lambda e: repr(e.id))
         options = [derivations(h, e.label, height - 1) for e in nts]
         for combo in itertools.product(*options):
-            out.append((r, tuple((e.id, c) for e, c in zip(nts, combo))))
+            out.append((r, tuple((ekey(e), c) for e, c in zip(nts, combo))))
     return out
+
+
+def ekey(e):
+    """child key of a nonterminal edge: its explicit id, or (implicit ids are not preserved by the
+    conjunction) its attachment"""
+    return e.id if isinstance(e.id, str) else ("~", tuple(idc(n.id) for n in e.nodes))
 
 
 def deriv_canon(d, ren=None):
     r, ch = d
-    return (rule_content(r, ren), tuple((repr(i), deriv_canon(c, ren)) for i, c in ch))
+    return (rule_content(r, ren), tuple(sorted(((repr(i), deriv_canon(c, ren)) for i, c in ch), key=repr)))
 
 
 def paired_canon(d1, d2) -> Optional[tuple]:
@@ -148,7 +160,7 @@ def paired_canon(d1, d2) -> Optional[tuple]:
         if p is None:
             return None
         ch.append((repr(i), p))
-    return (expected_rule_content(r1, r2), tuple(ch))
+    return (expected_rule_content(r1, r2), tuple(sorted(ch, key=repr)))
 
 
 def hrg_snapshot(h: HRG):
@@ -227,7 +239,7 @@ def check_pair(case, col: Collector) -> dict:
     stats["rules"] = len(exp_rules)
     used = []
     for rc in exp_rules:
-        for p in [rc[0]] + [x[1] for x in sorted(rc[3], key=repr)]:
+        for p in [rc[0]] + [x[0][1] for x in sorted(rc[3], key=repr)]:
             if p not in used:
                 used.append(p)
     sp = pair(h1.start.name, h2.start.name)
